@@ -1093,6 +1093,22 @@ def oracle(ctx, scale=1):
         if v:
             out.append(v)
     m = mg()
+    # a spectral radius AND an input scaling requested together (directly, or through successive partial applications): no matrix can honour
+    # both requests in general, so the call is refused -- silently honouring one of them would break the clause of the ignored one
+    for how in ("direct", "partial"):
+        scb = {"kind": "oracle-both", "init": "uniform", "how": how}
+        try:
+            if how == "direct":
+                Wb = m.uniform(5, 5, sr=0.5, input_scaling=2.0, seed=3)
+            else:
+                Wb = m.uniform(sr=0.5)(input_scaling=2.0)(5, 5, seed=3)
+            W0 = dense(m.uniform(5, 5, seed=3)).astype(float)
+            rb = float(max(abs(np.linalg.eigvals(dense(Wb).astype(float)))))
+            if not (np.allclose(dense(Wb), 2.0 * W0) and abs(rb - 0.5) < 1e-6):
+                out.append(_viol("sr-and-input_scaling:one-request-ignored", "uniform(5, 5, sr=0.5, input_scaling=2.0) (%s) is accepted and returns a matrix that is "
+                                 "not the draw times 2 with spectral radius 0.5 (radius %.4f)" % (how, rb), scb))
+        except Exception:  # noqa: BLE001 -- refused: the conforming answer
+            pass
     for nm in INITS:
         if getattr(m, nm)._kwargs != {}:
             out.append(_viol("purity:module-initializer-mutated", "mat_gen.%s._kwargs = %r at the end of the run" % (nm, getattr(m, nm)._kwargs),
